@@ -148,6 +148,55 @@ class SwitchKeys(Space):
         return self.cases[i]
 
 
+class SwitchDefault(Space):
+    """#switch argument lists of <= 4 items over bare/keyed cases including '#default' in every position, repeated, and followed
+    by bare items, for comparands that match a case, match only by fall-through, or match nothing"""
+    name = "tmpl"
+
+    def __init__(self, maxlen):
+        import itertools
+        W = lambda t: ("", [lit(t)], "")  # noqa
+        items = [("bare", W("a")), ("bare", W("x")), ("bare", W("#default")), ("kv", W("a"), W("A")), ("kv", W("x"), W("X")),
+                 ("kv", W("#default"), W("D1")), ("kv", W("#default"), W("D2"))]
+        self.cases = []
+        for n in range(1, maxlen + 1):
+            for seq in itertools.product(items, repeat=n):
+                if seq[-1] == items[2]:
+                    continue  # (a last bare '#default' is returned as text; a result starting with '#' gets MediaWiki's implicit newline)
+                for comp in ("a", "x", "zz"):
+                    sw = ("switchx", ("", [lit(comp)], ""), list(seq))
+                    self.cases.append(([lit("t")], T2_BODIES[0], [lit("<<"), sw, lit(">>")]))
+
+    def __len__(self):
+        return len(self.cases)
+
+    def __getitem__(self, i):
+        return self.cases[i]
+
+
+class NumericCompare(Space):
+    """#ifeq and #switch over every ordered pair of strings that are numeric for PHP, numeric only for Python, or look numeric"""
+    name = "tmpl"
+    WORDS = ["10", "1_0", "inf", "infinity", "nan", "NaN", "1e1", "10.0", ".5", "0.5", "5.", "5", "+5", "0x10", "16", "\u0661\u0660", "1 0", "1e", "e1", "-0", "0",
+             "1e999", "2e999", "010", "١"]
+
+    def __init__(self):
+        self.cases = []
+        W = lambda t: ("", [lit(t)], "")  # noqa
+        for a in self.WORDS:
+            for b in self.WORDS:
+                eq = ("ifeq", W(a), W(b), W("Y"), W("N"))
+                sw = ("switchx", W(a), [("kv", W(b), W("Y")), ("bare", W("N"))])
+                for pg in (eq, sw):
+                    self.cases.append(([lit("t")], T2_BODIES[0], [lit("<<"), pg, lit(">>")]))
+
+    def __len__(self):
+        return len(self.cases)
+
+    def __getitem__(self, i):
+        return self.cases[i]
+
+
 class C04(InputProp):
     id = "C04"
     rule = ("expr: every expression tree up to the operator-node bound, serialised twice, evaluated by the real {{#expr:}} and compared "
@@ -169,7 +218,8 @@ class C04(InputProp):
         self.db = LangDB("en", {})
         plain = [x for x in W.SIGMA_CORE if not any(c in x for c in "{}<")]
         fams = [ExprSpace(0, LITS6, "expr0"), ExprSpace(1, LITS6, "expr1"), ExprSpace(2, LITS6, "expr2"),
-                TmplSpace(1 if tier == "quick" else 2), SwitchKeys(), Seqs(plain, 3, name="ident")]
+                TmplSpace(1 if tier == "quick" else 2), SwitchKeys(), SwitchDefault(4 if tier == "quick" else 5), NumericCompare(),
+                Seqs(plain, 3, name="ident")]
         if tier != "quick":
             fams.append(ExprSpace(3, LITS3, "expr3"))
         self.space = Concat(*fams)
